@@ -265,6 +265,7 @@ func runMain(kind string, args []string) {
 				if r.err != nil || to {
 					// worker died (or was killed): that is an observation
 					cc.cmd.Wait()
+					death := deathSnapshot(line, cc.dir)
 					cc.rmdir()
 					st := cc.stderr.String()
 					c = nil
@@ -273,6 +274,9 @@ func runMain(kind string, args []string) {
 						"crashed": !to,
 						"hung":    to,
 						"stderr":  tail(st, 3000),
+					}
+					if death != nil {
+						obs["death"] = death
 					}
 					b, _ := json.Marshal(obs)
 					r.b = append(b, '\n')
